@@ -102,6 +102,13 @@ func ZZLinear(steps int) {
 				lastRead = r
 			}
 		}
+		// C06 / C07: whatever the clients do, the leader's DB is the fold of exactly the committed prefix —
+		// no committed entry skipped, none applied early
+		if dco, derr := lc.db.ReadCommitOffset(); true {
+			vAssert("leader-db-is-the-committed-prefix-after-every-step", derr == nil && dco == commit())
+			dg, gerr := lc.db.Get(&proto.GetRequest{Key: "k", IncludeValue: true})
+			vAssert("leader-db-state-is-the-fold-of-that-prefix", gerr == nil && dg.Status == proto.Status_OK && dg.Version.VersionId == dco && dg.Version.ModificationsCount == dco && int64(dg.Value[0]) == dco)
+		}
 		for i := int64(1); i <= written; i++ {
 			vAssert("write-acknowledged-at-most-once", ok[i]+bad[i] <= 1)
 			vAssert("no-failure-while-leading", bad[i] == 0)
